@@ -561,7 +561,7 @@ def evaluate(geo, op, base, npts, rs, rec, check_unchanged=True):
     except Exception as e:
         rec.count('completes')
         tb = traceback.extract_tb(sys.exc_info()[2])
-        where = ['%s:%d' % (os.path.basename(f.filename), f.lineno) for f in tb if 'c11_refine' not in f.filename][-1:] or ['?']
+        where = ['%s:%d' % (os.path.basename(f.filename), f.lineno) for f in tb if os.path.basename(f.filename) != 'c11_refine.py'][-1:] or ['?']
         rec.fail(('exception[%s@%s]' if sup else 'unsupported-exception[%s@%s]') % (type(e).__name__, where[0]), op, base,
                  'raises %s: %s%s' % (type(e).__name__, e, '' if sup else ' (region or transition region has a column with more than 4 sides: documented as unsupported)'), [opstr(op)])
         return False
